@@ -16,7 +16,7 @@ PROP = dict(
     engines=[dict(
         name="schedvec", classify=classify,
         quick=dict(cases=1280, shards=16, extra=["--shards", "16", "--por", "1", "--xmax", "14"]),
-        thorough=dict(cases=16000, shards=16, extra=["--shards", "16", "--por", "0", "--xmax", "900"]),
+        thorough=dict(cases=6400, shards=16, extra=["--shards", "16", "--por", "0", "--xmax", "160"]),
     )],
     rule="schedules: (a) interleavings of ONE write() with TWO reader operations at pause-point granularity, enumerated "
          "from the probed stop sequences of the real code, for 14 regimes (raw: fits, in-place extension, relocation to the "
@@ -28,7 +28,7 @@ PROP = dict(
          "1-2 reader pairs each (VecReader / fold_range_at / cursor / collect_range_at created before the relocation; compressed: "
          "collect_one_at / fold / range / cursor): for these the directed schedule 'readers up to the stop at which they hold "
          "their Reader, writer to the end of both writes, readers to the end' is always run in addition to the enumeration; "
-         "quick = stride sample of the enumeration reduced by commuting adjacent reader steps, thorough = the full enumeration "
+         "quick = stride sample of the enumeration reduced by commuting adjacent reader steps, thorough = up to 160 schedules per configuration without the commutation reduction "
          "(capped at 400000 per configuration); (b) random longer schedules (1-3 writes, 1-3 readers x 1-3 operations, fine stops "
          "incl. the mmap lock taps), a quarter of them with the second vector b (created with an initial size by 1-2 pre-phase "
          "writes, written 1-2 times between / after the writes of a: its relocations, in-place extensions and file growths are "
